@@ -726,4 +726,167 @@ theorem sim_run_refines_sys {Δ : Nat} : ∀ (fuel : Nat) (sim : Sim) (y : Sys),
       have s1 := iter_step hr hg hit
       exact s1.trans (fun y1 h1 => ih s' y1 h1 s1.good)
 
+/-! ### from the state the driver starts in -/
+
+/-- the request the application sends first -/
+def firstReq (sim : Sim) : Dgram :=
+  let r := sim.reqs[0]?.getD { con := true, method := 1, token := [] }
+  { type := if r.con then .con else .non, code := r.method, mid := (sim.cmid + 1) % 65536, token := r.token }
+
+/-- the harness state after the iteration in which the application sends its first request -/
+def firstSend (sim : Sim) : Sim :=
+  cAbs ({ sim with cmid := (sim.cmid + 1) % 65536, cur := some 0,
+                   reqs := sim.reqs.mapIdx (fun j (q : Req) => if j = 0 then { q with mid := (sim.cmid + 1) % 65536, sent := true } else q),
+                   trace := .send sim.now 0 ((sim.cmid + 1) % 65536) :: sim.trace } : Sim)
+    (.appSend sim.now (firstReq sim) sim.cT)
+
+theorem iter_first (sim : Sim) (hfly : sim.fly = []) (hcur : sim.cur = none) (hreqs : 0 < sim.reqs.length)
+    (hd : timersDue sim = false) : sim.iter = some (firstSend sim) := by
+  have hp : sim.pickFlight = none := by simp [Sim.pickFlight, hfly]
+  unfold Sim.iter
+  rw [hp]
+  unfold timersDue at hd
+  simp only [hd, hcur, hreqs, decide_true, Bool.and_true, Bool.false_eq_true, if_false, if_true]
+  rfl
+
+theorem timersDue_quiet (sim : Sim) (hc : sim.c.L = Idle) (hs : sim.s.L = Idle) (ha : sim.s.asyncs = [])
+    (hp : sim.s.pend = []) : timersDue sim = false := by
+  simp [timersDue, hc, hs, ha, hp, Layer.nextDue, Idle, Sim.dueLe, Server.asyncDue, Server.pendDue]
+
+/-- the harness state after the first request has been sent is represented by `Sys.start` -/
+theorem firstSend_ref {Δ : Nat} (sim : Sim) (hΔ : 0 < Δ) (hf : ∀ f ∈ sim.fates, fateOk Δ f) (hfly : sim.fly = [])
+    (hlen : sim.reqs.length = 1) (hc : sim.c.L = Idle) (hcon : (firstReq sim).type = .con) :
+    Ref Δ (firstSend sim) (Sys.start sim.c sim.s sim.now (firstReq sim) sim.cT) ∧ Good Δ (firstSend sim) ∧
+    simRsp (firstSend sim) = simRsp sim ∧ simNack (firstSend sim) = simNack sim := by
+  have hs := appSend_Idle sim.c sim.now (firstReq sim) sim.cT hc hcon
+  obtain ⟨E, e1, e2⟩ := clientOuts_spec Δ hΔ (sim.c.step (.appSend sim.now (firstReq sim) sim.cT)).2
+    ({ sim with cmid := (sim.cmid + 1) % 65536, cur := some 0,
+                reqs := sim.reqs.mapIdx (fun j (q : Req) => if j = 0 then { q with mid := (sim.cmid + 1) % 65536, sent := true } else q),
+                trace := .send sim.now 0 ((sim.cmid + 1) % 65536) :: sim.trace,
+                c := (sim.c.step (.appSend sim.now (firstReq sim) sim.cT)).1 } : Sim) hf
+  have ho : (sim.c.step (.appSend sim.now (firstReq sim) sim.cT)).2 = [Out.tx (firstReq sim)] := by
+    show (sim.c.appSend sim.now (firstReq sim) sim.cT).2 = _
+    rw [hs]
+  refine ⟨⟨?_, ?_, ?_, ?_⟩, ⟨hΔ, fun f h => hf f (E.hfates f h), 0, E.hcur, ?_⟩, ?_, ?_⟩
+  · exact E.hc.symm
+  · exact E.hs.symm
+  · exact Nat.le_of_eq E.hnow.symm
+  · intro f hfl
+    have hn : (firstSend sim).now = sim.now := E.hnow
+    rw [hn]
+    rcases E.hfly f hfl with h | ⟨b1, b2, b3, b4⟩
+    · simp [hfly] at h
+    · rw [ho] at b2
+      simp only [List.mem_singleton, Out.tx.injEq] at b2
+      refine ⟨b3, sim.now, ?_, b4⟩
+      simp only [b1, Sys.start, b2]
+      exact List.mem_singleton.mpr rfl
+  · have := E.hlen
+    simp only [List.length_mapIdx] at this
+    exact Nat.le_of_eq (this.trans hlen)
+  · refine e1.trans ?_
+    rw [ho]; simp [simRsp, List.countP_cons, isRspTr]
+  · refine e2.trans ?_
+    rw [ho]; simp [simNack, List.countP_cons, isNackTr]
+
+/-- the state the driver (and the C harness) starts a schedule in: nothing in flight, the application has ONE
+    (Confirmable) request to send and has not sent it yet, client and server quiet, every scripted delay below `Δ` -/
+structure SimStart (Δ : Nat) (sim : Sim) : Prop where
+  hΔ : 0 < Δ
+  hf : ∀ f ∈ sim.fates, fateOk Δ f
+  hfly : sim.fly = []
+  hcur : sim.cur = none
+  hlen : sim.reqs.length = 1
+  hc : sim.c.L = Idle
+  hreq : SReq (firstReq sim)
+  hq : SQuiet sim.s (firstReq sim)
+
+/-- **`Sim.run` from the driver's initial state is a run of `Sys.start`**: the first iteration sends the request
+    (`firstSend`), and the rest of the run is an event sequence `es` of the closed loop started by that request — the
+    events `simEvents` of the harness loop — admissible for the network hypothesis `RunOk Δ`, ending in a `Sys` state with
+    the harness's client and server, the client having reported exactly the `rsp@` / `nack@` entries of the trace. -/
+theorem sim_run_is_sys_run {Δ : Nat} {sim : Sim} (h : SimStart Δ sim) (fuel : Nat) :
+    Sim.run (fuel + 1) sim = Sim.run fuel (firstSend sim) ∧
+    ∃ es, es.map SysEv.erase = simEvents fuel (firstSend sim) ∧
+      (Sys.start sim.c sim.s sim.now (firstReq sim) sim.cT).RunOk Δ es ∧
+      Ref Δ (Sim.run (fuel + 1) sim) ((Sys.start sim.c sim.s sim.now (firstReq sim) sim.cT).run es).1 ∧
+      simRsp (Sim.run (fuel + 1) sim) = simRsp sim + nRsp ((Sys.start sim.c sim.s sim.now (firstReq sim) sim.cT).run es).2 ∧
+      simNack (Sim.run (fuel + 1) sim) = simNack sim + nNack ((Sys.start sim.c sim.s sim.now (firstReq sim) sim.cT).run es).2 := by
+  have hit := iter_first sim h.hfly h.hcur (by rw [h.hlen]; exact Nat.one_pos)
+    (timersDue_quiet sim h.hc h.hq.hL h.hq.hasync h.hq.hpend)
+  have hrun : Sim.run (fuel + 1) sim = Sim.run fuel (firstSend sim) := by simp only [Sim.run, hit]
+  obtain ⟨r0, g0, c1, c2⟩ := firstSend_ref sim h.hΔ h.hf h.hfly h.hlen h.hc h.hreq.hcon
+  obtain ⟨⟨es, a1, a2, a3, a4, a5⟩, _⟩ := sim_run_refines_sys fuel (firstSend sim) _ r0 g0
+  rw [hrun]
+  exact ⟨rfl, es, a1, a2, a3, by rw [a4, c1], by rw [a5, c2]⟩
+
+/-- **exactly once, transferred to the harness loop** (`exactly_once_closed_loop_partial` read on `Sim.run`): one
+    Confirmable request, a server personality that piggybacks or de-duplicates and answers with an ACK or a CON, every
+    scripted delay below `Δ`; if no copy of the response is delivered after the NACK in the event sequence of the run
+    (`SysNoLate` on `simEvents` — the open finding), the trace of the run holds at most one `rsp@` / `nack@` entry more
+    than at the start, and exactly one more when the client is quiet at the end, unless no copy of the response was
+    ever delivered. -/
+theorem sim_exactly_once_partial {Δ : Nat} {sim : Sim} (h : SimStart Δ sim) (hp : sim.s.pers ≠ .dn) (hpa : sim.s.pers ≠ .da)
+    (hfresh : fresh sim.c (respFor sim.s (firstReq sim))) (fuel : Nat)
+    (hlate : SysNoLate (respFor sim.s (firstReq sim)) (Sys.start sim.c sim.s sim.now (firstReq sim) sim.cT)
+      (simEvents fuel (firstSend sim))) :
+    simRsp (Sim.run (fuel + 1) sim) + simNack (Sim.run (fuel + 1) sim) ≤ simRsp sim + simNack sim + 1 ∧
+    ((Sim.run (fuel + 1) sim).c.L.sendq = [] →
+      simRsp (Sim.run (fuel + 1) sim) + simNack (Sim.run (fuel + 1) sim) = simRsp sim + simNack sim + 1 ∨
+      ∀ e ∈ simEvents fuel (firstSend sim), ¬ isRspS (respFor sim.s (firstReq sim)) e) := by
+  obtain ⟨_, es, a1, a2, a3, a4, a5⟩ := sim_run_is_sys_run h fuel
+  have hl : SysNoLate (respFor sim.s (firstReq sim)) (Sys.start sim.c sim.s sim.now (firstReq sim) sim.cT) es := by
+    rw [← a1] at hlate; exact (sysNoLate_erase _ es _).mp hlate
+  obtain ⟨b1, b2⟩ := exactly_once_closed_loop_partial h.hreq sim.s h.hq hp hpa sim.c h.hc hfresh sim.now sim.cT Δ es a2 hl
+  refine ⟨by omega, fun hq => ?_⟩
+  rw [← a3.hc] at hq
+  rcases b2 hq with b | b
+  · left; omega
+  · right
+    intro e he
+    rw [← a1] at he
+    obtain ⟨e', he', rfl⟩ := List.mem_map.mp he
+    exact fun hi => b e' he' ((isRspS_erase _ e').mp hi)
+
+/-- **exactly once, piggybacked response, transferred to the harness loop** (`exactly_once_piggybacked` /
+    `exactly_once_piggybacked_quiet` read on `Sim.run`; no `NoLate`): piggybacking server, every scripted delay below `Δ`
+    with `2Δ ≤ cT·2^MAX_RETRANSMIT`: at most one `rsp@` / `nack@` entry, and exactly one whenever the client is quiet at
+    the end of the run. -/
+theorem sim_exactly_once_piggybacked {Δ : Nat} {sim : Sim} (h : SimStart Δ sim) (hp : sim.s.pers = .pb)
+    (hfresh : fresh sim.c (respFor sim.s (firstReq sim))) (hT : 0 < sim.cT) (h2 : 2 * Δ ≤ sim.cT * 2 ^ maxRetransmit)
+    (fuel : Nat) :
+    simRsp (Sim.run (fuel + 1) sim) + simNack (Sim.run (fuel + 1) sim) ≤ simRsp sim + simNack sim + 1 ∧
+    ((Sim.run (fuel + 1) sim).c.L.sendq = [] →
+      simRsp (Sim.run (fuel + 1) sim) + simNack (Sim.run (fuel + 1) sim) = simRsp sim + simNack sim + 1) := by
+  obtain ⟨_, es, a1, a2, a3, a4, a5⟩ := sim_run_is_sys_run h fuel
+  obtain ⟨b1, _⟩ := exactly_once_piggybacked h.hreq sim.s h.hq hp sim.c h.hc hfresh sim.now sim.cT Δ hT h2 es a2
+  refine ⟨by omega, fun hq => ?_⟩
+  rw [← a3.hc] at hq
+  have := exactly_once_piggybacked_quiet h.hreq sim.s h.hq hp sim.c h.hc hfresh sim.now sim.cT Δ hT h2 es a2 hq
+  omega
+
+/-! ### the hypotheses are satisfiable: a concrete schedule of the driver -/
+
+instance (Δ : Nat) : (f : Fate) → Decidable (fateOk Δ f)
+  | .deliver d => inferInstanceAs (Decidable (d < Δ))
+  | .drop => isTrue trivial
+  | .dup a b => inferInstanceAs (Decidable (a < Δ ∧ b < Δ))
+
+/-- `xchg ac+ 300 1000 5000 … q C1 - d100,x,d100,d100,u100+300`: the first copy of the request is answered by an Empty
+    ACK that is lost, the request is retransmitted … -/
+def wSim : Sim :=
+  { s := wAc, cT := 2000, cmid := 1000, eager := false,
+    fates := [.deliver 100, .drop, .deliver 100, .deliver 100, .dup 100 300], verdicts := [],
+    reqs := [{ con := true, method := 1, token := [0xc0, 7] }] }
+
+set_option maxRecDepth 8000 in
+example :
+    SimStart ackTimeout wSim ∧ wSim.s.pers ≠ .dn ∧ wSim.s.pers ≠ .da ∧ fresh wSim.c (respFor wSim.s (firstReq wSim)) ∧
+    SysNoLate (respFor wSim.s (firstReq wSim)) (Sys.start wSim.c wSim.s wSim.now (firstReq wSim) wSim.cT)
+      (simEvents 30 (firstSend wSim)) ∧
+    simRsp (Sim.run 31 wSim) = 1 ∧ simNack (Sim.run 31 wSim) = 0 ∧ (Sim.run 31 wSim).c.L.sendq = [] ∧
+    (simEvents 30 (firstSend wSim)).length = 7 := by
+  refine ⟨⟨by decide, by decide, rfl, rfl, rfl, rfl, ⟨by decide, by decide⟩, ⟨by decide, by decide, by decide, by decide, by decide⟩⟩,
+    by decide, by decide, ⟨fun _ => by decide, fun _ => by decide⟩, by decide, by decide, by decide, by decide, by decide⟩
+
 end Coap.C07
